@@ -558,6 +558,19 @@ func Overwrite(col any, rt *refproto.Type, i int, v any) (ok bool) {
 		vals.Index(i).Set(e)
 		return true
 	}
+	if e, isEnum := col.(*proto.ColEnum); isEnum {
+		// ColEnum.Values is exported for the caller to set
+		if i >= len(e.Values) {
+			return false
+		}
+		for _, d := range rt.Enum {
+			if d.Val == v.(int64) {
+				e.Values[i] = d.Name
+				return true
+			}
+		}
+		return false
+	}
 	if rv.Kind() != reflect.Pointer || rv.Elem().Kind() != reflect.Slice {
 		return false
 	}
